@@ -643,8 +643,9 @@ def h_gcp_affine(op, crop):
         prove("resolution_as_linear", And(abs(ex(r.x) - ex(r0.x)) <= F(1, 10**6), abs(ex(r.y) - ex(r0.y)) <= F(1, 10**6)))
 
 
-def h_gcp(op):
+def h_gcp(op, view="plain"):
     import odc.geo.gcp as gcp
+    from affine import Affine
 
     ny, nx = Int("ny", 1), Int("nx", 1)
     i, j = pt()
@@ -656,7 +657,13 @@ def h_gcp(op):
         mp = gcp.GCPMapping(pix, wld, None)
     else:
         mp = _UFMapping()
-    g = gcp.GCPGeoBox((ny, nx), mp)
+    if view == "plain":
+        g = gcp.GCPGeoBox((ny, nx), mp)
+    else:
+        # a view that was zoomed and cropped before: internal affine = translation x scale
+        s0, tx0, ty0 = Real("view_scale"), Real("view_tx"), Real("view_ty")
+        assume(s0 > 0)
+        g = gcp.GCPGeoBox((ny, nx), mp, Affine.translation(tx0, ty0) * Affine.scale(s0, s0))
     cmp_ = close_pt if symx.concrete_mode() else same_pt
     if op == "crop":
         y0, x0 = Int("y0", 0), Int("x0", 0)
@@ -747,7 +754,7 @@ OBLIGATIONS = [
        bounds="control-point map = fixed linear part (3,-1/2;1/4,-2) with symbolic offset; shape and crop offset symbolic; target resolution 7/2",
        stubs=("affine mapping object in place of the fitted GCPMapping (symbolic run; the replay fits a real GCPMapping)", "vertex-list FakeGeometry",
               "zoom_res: GCPGeoBox.boundingbox replaced by the contract that op=bbox proves (assume-guarantee)"), setup=setup_region),
-    Ob("G8_gcp", h_gcp, fixed(dict(op="crop"), dict(op="pad"), dict(op="zoom")), descr="GCPGeoBox crop/pad/zoom: new.pix2wld(p) == old.pix2wld(g(p)) with the fit as an uninterpreted function",
+    Ob("G8_gcp", h_gcp, fixed(dict(op="crop"), dict(op="pad"), dict(op="zoom"), dict(op="crop", view="zoomed"), dict(op="pad", view="zoomed"), dict(op="zoom", view="zoomed")), descr="GCPGeoBox crop/pad/zoom: new.pix2wld(p) == old.pix2wld(g(p)) with the fit as an uninterpreted function",
        functions=("odc.geo.gcp.GCPGeoBox.__getitem__", "odc.geo.gcp.GCPGeoBox.pad", "odc.geo.gcp.GCPGeoBox.zoom_out", "odc.geo.gcp.GCPGeoBox.zoom_to", "odc.geo.gcp.GCPGeoBox.pix2wld"),
        stubs=("uninterpreted pixel->world function in place of the polynomial fit",), setup=setup),
 ]
